@@ -11,6 +11,7 @@ CONSTANTS
   MaxBal = 2
   Kinds <- KindsMember
   Ords <- OrdId4
+  AliasSafe = FALSE
   Window = TRUE
   NumOf <- Flat
 INVARIANT TypeOK
